@@ -77,6 +77,26 @@ class Sim03(scenario.Sim):
         for spec in sc.get("wfaults", []):
             self.cluster.fault_rules.append(WindowFault(spec))
 
+    def apply_op(self, op: list) -> None:
+        """`fins` / `strip_own_finalizer` of the scenario language know the framework's finalizer by kopf's default name;
+        here the name is the CONFIGURED one (`settings.persistence.finalizer`), and kopf's default name on an object of
+        such a scenario is somebody else's."""
+        own = (self.sc.get("settings") or {}).get("persistence.finalizer")
+        if not own or op[0] not in ("fins", "strip_own_finalizer"):
+            return super().apply_op(op)
+        name = op[1]
+        if op[0] == "fins":
+            new = list(op[2])
+
+            def f(b: dict) -> None:
+                cur = b["metadata"].get("finalizers", [])
+                b["metadata"]["finalizers"] = new + ([own] if own in cur else [])
+        else:
+            def f(b: dict) -> None:
+                b["metadata"]["finalizers"] = [x for x in b["metadata"].get("finalizers", []) if x != own]
+        self.cluster.mutate(self.kex, "ns", name, f)
+        self.mark("op", op=op)
+
     def _tag_cycle(self, req: dict) -> None:
         """Which processing cycle (of which object uid) issues this request: the request runs in the worker's task."""
         rec = observe._cycle.get()
